@@ -83,7 +83,14 @@ def one_case(mon, rng, c):
     # mostly a deep wallet; sometimes a shallow one, so that supplies (and repayments) larger than the wallet are requested
     big = {t: Decimal(10) ** rng.choice([12, 12, 12, 4, 1]) for t in w.tokens}
     bar = 0
-    fz = Dr.Frozen([m], w.prices.iloc[0], None, big, w.index[0])
+    sib = None
+    if rng.random() < 0.35:
+        # Aave on a second chain under the same account: the same token names, other indices and risk rows
+        from ..decoy import AaveSibling
+
+        sib = AaveSibling(rng, w)
+        mon.cls("sibling/aave")
+    fz = Dr.Frozen([m] + ([sib.m] if sib else []), w.prices.iloc[0], None, big, w.index[0])
     from demeter._typing import USD
 
     fz.broker.quote_token = USD
@@ -132,9 +139,15 @@ def one_case(mon, rng, c):
         if rng.random() < 0.5 and bar < n - 1:
             bar = min(n - 1, bar + rng.choice([1, 1, 2, 5, 20, 60, 200]))
             fz.set_bar(w.index[bar], w.prices.iloc[bar])
+            if sib is not None and rng.random() < 0.7:
+                sib.poke(rng)
+                mon.hit("sibling-poke")
             for name in set(led.sup) | set(led.bor):
                 led.idx_changes[name] = led.idx_changes.get(name, 0) + 1
             read_all("new-bar")
+        if sib is not None and rng.random() < 0.4:
+            sib.poke(rng)
+            mon.hit("sibling-poke")
         t = rng.choice(w.tokens)
         name = t.name
         scale = Decimal(10) ** rng.randint(-6, 6)
